@@ -173,6 +173,9 @@ cfg_k8s! {
 }
 // Utility functions for Sentinel.
 pub mod utils;
+// Synchronisation primitives used by the crate (plain `std::sync` in normal builds).
+#[doc(hidden)]
+pub mod vsync;
 
 // re-export precludes
 pub use crate::core::*;
